@@ -231,7 +231,7 @@ From DD Require Options.YValue Options.YModel Options.YProofsBase Options.YProof
 
 (* clause 1 at a leaf: altL = representation-equal | same string up to case / str-bytes | numbers (int, float, Decimal) equal
    under the precision or tolerance in force | datetimes of one normalised instant | two nan objects under
-   ignore_nan_inequality | an Enum member and its (non-None) value under use_enum_value *)
+   ignore_nan_inequality | an Enum member and its value under use_enum_value *)
 Theorem C11x_leaf_alt_empty : forall udiff F a b p1 p2,
   YProofsAtoms.altL F a b = true -> YModel.diff_atomF udiff F a b p1 p2 = [].
 Proof. exact YProofsAtoms.diff_atomF_altL. Qed.
@@ -383,13 +383,15 @@ Theorem C11x_numeric_group_datetime_raises_refuted : (* C11-NUMGROUP-DATETIME, t
 Proof. exact YProofsWitness.y_items_guard_refuted. Qed.
 Print Assumptions C11x_numeric_group_datetime_raises_refuted.
 
-(* clause 1 refuted for use_enum_value: None against a member whose value is None (C11-ENUM-NONE); two members of one class *)
-Theorem C11x_enum_none_refuted :
-  exists a b, YValue.atom_eqb (YModel.unwrap YProofsWitness.XFenum a) (YModel.unwrap YProofsWitness.XFenum b) = true /\
-    YProofsAtoms.enum_rel YProofsWitness.XFenum a b = false /\
-    exists r, YProofsWitness.xrun YProofsWitness.xcdef YProofsWitness.XFenum (YValue.VAtom a) (YValue.VAtom b) = YModel.Ok r /\ fst r <> [].
-Proof. exact YProofsWitness.y_enum_none_refuted. Qed.
-Print Assumptions C11x_enum_none_refuted.
+(* use_enum_value: None against a member whose value is None is related and reports nothing (C11-ENUM-NONE, fixed in /repo by
+   c9e614d - the model follows); two members of one class are NOT related: _diff_enum reports the .name child *)
+Example C11x_enum_none_fixed :      (* the member NOTHING = None of the class Opt *)
+  let a := YValue.AEnum [79; 112; 116]%N [78; 79; 84; 72; 73; 78; 71]%N 0 YValue.ENone in
+  YProofsAtoms.enum_rel YProofsWitness.XFenum a YValue.ANone = true /\
+  YProofsAtoms.altL YProofsWitness.XFenum a YValue.ANone = true /\ YProofsAtoms.altL YProofsWitness.XFenum YValue.ANone a = true /\
+  YProofsWitness.xrun YProofsWitness.xcdef YProofsWitness.XFenum (YValue.VAtom a) (YValue.VAtom YValue.ANone) = YModel.Ok ([], []) /\
+  YProofsWitness.xrun YProofsWitness.xcdef YProofsWitness.XFenum (YValue.VAtom YValue.ANone) (YValue.VAtom a) = YModel.Ok ([], []).
+Proof. exact YProofsWitness.y_enum_none_fixed. Qed.
 
 Theorem C11x_enum_same_class_refuted :
   exists a b, YValue.atom_eqb (YModel.unwrap YProofsWitness.XFenum a) (YModel.unwrap YProofsWitness.XFenum b) = true /\
